@@ -38,6 +38,17 @@ def U(q: str, src: str, pkg: bool = False) -> Unit:
     return Unit(q, pkg, src, q.rpartition(".")[0] or None)
 
 
+def NESTED_HEADER_SRC(outer: str, base: str, tv: str, n1: str, n2: str) -> str:
+    return ("'''Shapes.'''\nfrom collections import namedtuple\nfrom typing import Generic, TypeVar, List\n"
+            "class %(o)s:\n    '''outer'''\n    %(b)s = namedtuple('%(b)s', 'x y')\n    '''the base'''\n    %(t)s = TypeVar('%(t)s')\n    '''the variable'''\n"
+            "    class Plain:\n        '''a nested base'''\n        def area(self):\n            '''a'''\n"
+            "    class %(n1)s(%(b)s):\n        '''a point'''\n        origin: '%(t)s' = None\n        '''annotated with an outer variable'''\n"
+            "        def move(self, by: %(b)s = None) -> 'List[%(t)s]':\n            '''m'''\n"
+            "    class %(n2)s(Generic[%(t)s], Plain):\n        '''a layer'''\n        def area(self):\n            pass\n"
+            "        class Deep(%(b)s):\n            '''two levels down'''\n"
+            % {"o": outer, "b": base, "t": tv, "n1": n1, "n2": n2})
+
+
 def HUNT_FIELD_TYPE_UNITS(pk: str) -> List[Unit]:
     return [U(pk, "'''The package.'''\n", True),
             U(pk + ".a", "'''\nModule a.\n\n@var x: The x.\n@type x: what L{helper} returns\n'''\ndef helper():\n    '''Make an x.'''\nx = helper()\n"),
@@ -150,6 +161,12 @@ def scenario_projects() -> List[Dict[str, Any]]:
                 "    def f(self):\n        \"\"\"Uses `the target`_ here.\n\n        .. _the target:\n\n        Target paragraph.\n        \"\"\"\n"
                 "def g():\n    \"\"\"Plain summary.\n\n    Body refers to more_.\n\n    .. _more:\n\n    More.\n    \"\"\"\n"),
     ], [])
+    # the header / annotations of a NESTED class (own page) naming variables and classes of the OUTER class that are not
+    # defined at module level: _AnnotationLinker resolves them through the scope's linker, whose links must be made for
+    # the nested class's page too (seeded change C11-r5-2)
+    add("nested-class-header-names-outer-variables", [U("shapes", NESTED_HEADER_SRC("Canvas", "_PointBase", "T", "Point", "Layer"))], [])
+    add("nested-class-header-private-outer", [U("shapes", NESTED_HEADER_SRC("_Canvas", "PB", "T", "Point", "Layer"))],
+        ["PRIVATE:shapes._Canvas.T"])
     # hunter round (C12/1, C12/2): a property is three objects (the attribute 'secret' and the sibling functions
     # 'secret.setter', 'secret.deleter'): a rule for the property does not name the accessors; a PRIVATE class with a
     # public (or a superseded, invisible) subclass in the class index
@@ -452,6 +469,10 @@ def random_project(rng) -> List[Unit]:
             if rng.random() < 0.3:
                 fam += ["class LSubSub(LSub):", "    '''doc of LSubSub'''", "    def %s(self): return 3" % b]
             src += "\n" + "\n".join(fam) + "\n"
+        # nested classes whose bases / generic arguments / annotations name variables of the outer class
+        if not rst_project and rng.random() < 0.08 and "class NOuter" not in src:
+            src += "\n" + NESTED_HEADER_SRC(rng.choice(["NOuter", "_NOuter"]), rng.choice(["_PB", "PB"]), rng.choice(["T", "_T"]),
+                                            rng.choice(["Point", "_Pt", "f"]), rng.choice(["Layer", "K", "x"])).split("\n", 1)[1] + "\n"
         out.append(Unit(u.qname, u.is_package, src, u.parent))
     # sometimes a package gets a __main__ module (private by default, rules apply; see random_privacy)
     pkgs = [u.qname for u in out if u.is_package]
